@@ -372,9 +372,21 @@ def fake_posixsubprocess(proc):
                 child.inh[fd] = True
                 of.incref()
         child.exec_fds = sorted(child.fds)
+        child.info["exec_pipes"] = [(fd, of.pipe.n, of.mode, of.pipe.origin, of.pipe.born_step) for fd, of in sorted(child.fds.items())]
+        child.info["parent_prev_exec_step"] = proc.info.get("last_exec_step", -1)
+        proc.info["last_exec_step"] = k.s.steps
         child.exec_env = dict(cenv)
         child.info["close_fds"] = bool(close_fds)
         child.info["pass_fds"] = sorted(int(f) for f in pass_fds)
+        trk = sys.modules.get("loky.backend.resource_tracker")
+        mpt = sys.modules.get("multiprocessing.resource_tracker")
+        child.info["tracker_fds"] = [x for x in (
+            getattr(getattr(trk, "_resource_tracker", None), "_fd", None),
+            getattr(getattr(mpt, "_resource_tracker", None), "_fd", None)) if x is not None]
+        cur_ = RT.sched.cur()
+        plain = cur_ is not None and cur_.api is not None and cur_.api[0] == "child_exit"
+        child.info["pool"] = not plain
+        child.info["ctx"] = (cur_.api[3] if plain and len(cur_.api) > 3 else RT.run.spec.get("ctx"))
         child.info["parent_env_at_exec"] = dict(proc.env)
         child.info["parent_fds_at_exec"] = sorted(proc.fds)
         child.info["parent_inheritable_at_exec"] = sorted(f for f, v in proc.inh.items() if v)
@@ -899,7 +911,11 @@ def start_process(child):
                 ns["sys"].argv = [mod.__file__] + argv[i + 2:]
                 ns["__name__"] = "__main__"
                 sys.argv = [mod.__file__] + argv[i + 2:]
-                exec(blk, ns)
+                try:
+                    exec(blk, ns)
+                finally:
+                    if child.alive:
+                        child.info["booted"] = True
             elif "-c" in argv:
                 cmd = argv[argv.index("-c") + 1]
                 exec(cmd, {"__name__": "__main__"})
